@@ -175,15 +175,18 @@ def float_start_ref(start_us: int, ref_ts: int) -> int:
 
 def nearest_candidates(durs: list, ts: int, start_us: int, ref_ts: int) -> set:
     """stored segments (0-based) whose start is nearest the Period's source offset, in exact
-    rational arithmetic; anything within the rounding of the two floors the service applies
-    (one reference tick, one track tick, half-tick of an odd duration) counts as nearest."""
+    rational arithmetic.  The service takes the offset on the grid of the stream's timing
+    reference (floor to a reference tick, e.g. 1/240 s, then floor to a track tick, and the
+    half of an odd duration is floored): the position it compares is up to
+    e = ts/ref_ts + 2 track ticks below the exact one, which moves the *difference* of two
+    distances by up to 2e – any start within that of the best counts as nearest."""
     starts = [0]
     for d in durs[:-1]:
         starts.append(starts[-1] + d)
     # distances scaled by 10^6 (exact): |P_j * 10^6 - start_us * ts|
     dist = [abs(p * 1_000_000 - start_us * ts) for p in starts]
     best = min(dist)
-    tol = (2 + -(-ts // ref_ts)) * 1_000_000
+    tol = 2 * (2 + -(-ts // ref_ts)) * 1_000_000
     return {j for j, x in enumerate(dist) if x <= best + tol}
 
 
